@@ -171,8 +171,13 @@ struct GenStat {
     wall_s: f64,
 }
 
+/// beyond this many distinct non-trivial case hashes the set stops growing (the reported count is
+/// then a lower bound, flagged in the evidence)
+const NONTRIVIAL_CAP: usize = 40_000_000;
+
 #[derive(Default)]
 struct State {
+    nontrivial_saturated: bool,
     evaluations: u64,
     nontrivial: HashSet<u64>,
     nontrivial_extra: u64,
@@ -246,6 +251,15 @@ impl<'r> Ctx<'r> {
     #[inline]
     pub fn nontrivial(&mut self, h: u64) {
         self.nontrivial.insert(h);
+        if self.nontrivial.len() >= 200_000 {
+            let set = std::mem::take(&mut self.nontrivial);
+            let mut st = self.run.state.lock().unwrap();
+            if st.nontrivial.len() < NONTRIVIAL_CAP {
+                st.nontrivial.extend(set);
+            } else {
+                st.nontrivial_saturated = true;
+            }
+        }
     }
     #[inline]
     pub fn count(&mut self, key: &'static str, n: u64) {
@@ -310,7 +324,11 @@ impl<'r> Ctx<'r> {
     fn merge(self) {
         let mut st = self.run.state.lock().unwrap();
         st.evaluations += self.evals;
-        st.nontrivial.extend(self.nontrivial);
+        if st.nontrivial.len() < NONTRIVIAL_CAP {
+            st.nontrivial.extend(self.nontrivial);
+        } else {
+            st.nontrivial_saturated = true;
+        }
         for (k, v) in self.counters {
             *st.counters.entry(k.to_string()).or_insert(0) += v;
         }
@@ -615,6 +633,9 @@ impl Run {
         cov.set("samples", J::Arr(if samples.is_empty() { vec![J::s("<none>")] } else { samples }));
         let all_exh = !st.gens.is_empty() && st.gens.iter().all(|g| g.exhaustive);
         cov.set("exhaustive", J::Bool(all_exh));
+        if st.nontrivial_saturated {
+            cov.set("distinct_nontrivial_is_lower_bound", J::Bool(true));
+        }
         cov.set(
             "generators",
             J::Arr(
